@@ -157,25 +157,28 @@ fn parse_digit_pair(chars: &mut Peekable<Chars<'_>>) -> TemporalResult<i16> {
 }
 
 fn parse_iana_component(chars: &mut Peekable<Chars<'_>>) -> bool {
-    // Confirm leading Tz char
-    if !chars.peek().is_some_and(is_tz_leading_char) {
-        return false;
-    }
-    chars.next();
-
-    // Move and check that chars are an expected tz char
-    while chars.peek().is_some_and(is_tz_char) {
+    // One component per iteration (not per stack frame: an identifier may have any number of them).
+    loop {
+        // Confirm leading Tz char
+        if !chars.peek().is_some_and(is_tz_leading_char) {
+            return false;
+        }
         chars.next();
-    }
 
-    // Check for sub component and parse
-    if chars.peek().is_some_and(is_slash) {
-        chars.next();
-        return parse_iana_component(chars);
-    }
+        // Move and check that chars are an expected tz char
+        while chars.peek().is_some_and(is_tz_char) {
+            chars.next();
+        }
 
-    // Confirm full source text has been parsed.
-    chars.peek().is_none()
+        // Check for sub component and parse
+        if chars.peek().is_some_and(is_slash) {
+            chars.next();
+            continue;
+        }
+
+        // Confirm full source text has been parsed.
+        return chars.peek().is_none();
+    }
 }
 
 // NOTE: Spec calls for throwing a RangeError when parse node is a list of errors for timezone.
